@@ -769,6 +769,10 @@ PrecAspCase(n) ==
       t == AspTerm(idx \div 2)
       sp == IF idx % 2 = 0 THEN " " ELSE ""
   IN [id |-> "pa" \o ToString(idx), prog |-> "p(" \o TText(t, 1, sp) \o ") :- q(X), q(Y).", exp |-> t]
+PrecRuleCase(n) ==
+  LET idx == (Seed0 * 71 + n * Stride) % NAspRules
+      r == AspRule(idx)
+  IN [id |-> "pr" \o ToString(idx), prog |-> r.text, exprule |-> [head |-> r.head, body |-> r.body]]
 PrecFolCase(n) ==
   LET idx == (Seed0 * 67 + n * Stride) % (NFolForms + NFolCmps)
       f == IF idx < NFolForms THEN FolForm(idx) ELSE FolCmp(idx - NFolForms)
@@ -778,6 +782,7 @@ Case(n, sd) ==
   CASE Mode = "program" -> ProgramCase(n, sd)
     [] Mode = "precasp" -> PrecAspCase(n)
     [] Mode = "precfol" -> PrecFolCase(n)
+    [] Mode = "precrule" -> PrecRuleCase(n)
     [] Mode = "outline" -> OutlineCase(n, sd)
     [] Mode = "aspsyntax" -> AspSyntaxCase(n, sd)
     [] Mode = "folsyntax" -> FolSyntaxCase(n, sd)
